@@ -1,5 +1,6 @@
 """C07 - virtual_size equals the disk size the image declares."""
 import json
+import time
 
 import common
 import gen_insp
@@ -56,9 +57,9 @@ def declared_values(fmt, rng, quick):
     if fmt == 'luks':
         return G.size_values(32, rng, 2 if quick else 8)
     if fmt == 'raw':
-        return [0, 1, 511, 512, 513, 5000, 70000]
+        return [0, 1, 511, 512, 513, 5000, 70000, 300000, 256 * G.K + 4097, 600000]
     if fmt == 'gpt':
-        return [512, 513, 1024, 4096, 70000]
+        return [512, 513, 1024, 4096, 70000, 300000, 256 * G.K + 4097]
     if fmt == 'qed':
         return [512, 513, 2000]
     raise KeyError(fmt)
@@ -109,6 +110,9 @@ def c07_images(ctx, rng, for_search=False):
         for v in vals:
             imgs.append(G.wellformed(fmt, rng, size=v, big=(not quick and rng.random() < 0.15)))
     imgs += special_layouts(rng, quick)
+    # stream-length based sizes (raw, GPT, LUKS) on streams longer than every inspector's decision point
+    for body in (300000, 256 * G.K + 4097):
+        imgs.append(G.wellformed('luks', rng, params=dict(payload_offset=rng.choice([0, 1, 8, 4096, G.U32]), body_len=body)))
     # more random admissible layouts with random in-range sizes
     for fmt, k in (('vhdx', 6), ('vmdk', 12), ('iso', 8), ('qcow2', 6), ('vhd', 4), ('vdi', 4), ('luks', 6)):
         for _ in range(k if quick else 4 * k):
@@ -186,7 +190,12 @@ def correspondence(ctx):
                 ctx.count('chunkings-skipped-for-total-budget')
                 continue
             spent += c
-            pairs.append(G.Pair(img, sizes, tag, trace=n <= 4096 and len(sizes) <= 1500, poke=rng.random() < 0.3))
+            feed, ctor = G.pick_presentation(img.fmt, rng, 0.5)
+            pairs.append(G.Pair(img, sizes, tag, trace=n <= 4096 and len(sizes) <= 1500, poke=rng.random() < 0.3, feed=feed, ctor=ctor))
+            # the same reads through InspectWrapper (all formats, or a subset of allowed_formats)
+            if img.wellformed and rng.random() < (0.12 if n <= 64 * G.K else 0.04) and spent + 10 * c <= budget['total']:
+                spent += 10 * c
+                pairs.append(G.Pair(img, sizes, tag, kind='wrap', allowed=allowed_subset(img.fmt, rng)))
 
     def on(p, impl):
         G.note_verdict(ctx, p, impl)
@@ -205,9 +214,10 @@ def correspondence(ctx):
 # --------------------------------------------------------------------------
 # failing-input search (implementation only): virtual_size == the size the builder encoded
 
-def vsize_of(fmt, data, sizes, poll=None):
+def vsize_of(fmt, data, sizes, poll=None, feed='bytes', ctor=None):
     """final virtual_size; `poll` = 'all' or a set of chunk indices after which every public observer
-    (virtual_size, format_match, complete, context_info, safety_check ...) is queried during the feed"""
+    (virtual_size, format_match, complete, context_info, safety_check ...) is queried during the feed;
+    `feed` / `ctor`: how the chunks are presented and how the inspector is constructed (insp_gen.Feeder)"""
     q = None
     if poll is not None:
         k = [0]
@@ -216,47 +226,97 @@ def vsize_of(fmt, data, sizes, poll=None):
             if poll == 'all' or k[0] in poll:
                 insp_impl.poke(i)
             k[0] += 1
-    return G.vfield(G.impl_run(fmt, data, sizes, query=q)[1], 'vsize')
+    return G.vfield(G.impl_run(fmt, data, sizes, query=q, feed=feed, ctor=ctor)[1], 'vsize')
 
 
-def check_wellformed(ctx, img, expected, fam, fails, what, poll_p=0.35):
-    """virtual_size under every chunking equals `expected` - also when the observers are polled while
-    the stream is being fed (on a fraction `poll_p` of the chunkings: after every chunk, and after a
-    random subset of the chunks)"""
+def allowed_subset(fmt, rng):
+    return rng.choice([None, None, [fmt], sorted({fmt, 'raw'}, key=G.FORMATS.index), sorted({fmt, 'raw', 'gpt'}, key=G.FORMATS.index),
+                       sorted(set([fmt] + rng.sample(G.FORMATS, 3)), key=G.FORMATS.index)])
+
+
+def vsize_via_wrapper(fmt, data, sizes, allowed=None, how='read'):
+    """the stream presented through InspectWrapper (read() calls of the given sizes, or iteration over a chunk
+    source), closed; virtual_size of the wrapper's inspector for `fmt` and the format the wrapper reports"""
+    F = insp_impl.fi()
+    if how == 'read':
+        w = F.InspectWrapper(insp_impl.Src(data), allowed_formats=allowed)
+        for n in sizes:
+            w.read(n)
+        w.close()
+    else:
+        w = F.InspectWrapper(iter(insp_impl.cut(data, sizes)), allowed_formats=allowed)
+        for _ in w:
+            pass
+    insp = [i for i in w._inspectors if i.NAME == fmt][0]
+    try:
+        f = w.format
+        fs = str(f) if f is not None else 'None'
+    except Exception as e:
+        fs = 'EXC:' + type(e).__name__
+    return insp_impl.show_prop(lambda: insp.virtual_size), fs
+
+
+def check_wellformed(ctx, img, expected, fam, fails, what, poll_p=0.35, forced=None):
+    """virtual_size under every chunking equals `expected` - also when the observers are polled while the stream
+    is being fed, when the chunks are presented as a reused bytearray / memoryview or to an inspector built with
+    other constructor arguments, and when the stream is presented through InspectWrapper"""
     want = str(expected)
     n = len(img.data)
     rng = ctx.rng
+    full = getattr(ctx, '_c07_full', False)
     for tag, sizes in fam:
         ctx.evaluations += 1
-        polls = [None]
+        variants = [dict()]
         if len(sizes) >= 2 and rng.random() < poll_p:
-            polls += ['all', sorted(rng.sample(range(len(sizes)), max(1, min(len(sizes) // 2, 20))))]
-        for poll in polls:
-            if poll is not None:
+            variants += [dict(poll='all'), dict(poll=sorted(rng.sample(range(len(sizes)), max(1, min(len(sizes) // 2, 20)))))]
+        if len(sizes) <= 1200 and (full or tag.startswith('fixed') or tag in ('one', 'seed') or rng.random() < 0.15):
+            pres = G.presentations(img.fmt)
+            for feed, ctor in (pres if full else rng.sample(pres, 1)):
+                variants.append(dict(feed=feed, ctor=ctor))
+        if len(sizes) <= 1200 and (full or rng.random() < 0.25):
+            variants.append(dict(wrapper=rng.choice(['read', 'iter']), allowed=allowed_subset(img.fmt, rng)))
+        if forced:
+            variants.append(forced)
+        for v in variants:
+            if v:
                 ctx.evaluations += 1
-                ctx.count('search/with-intermediate-queries')
-            got = vsize_of(img.fmt, img.data, sizes, poll)
+                ctx.count('search/variant/' + ('intermediate-queries' if 'poll' in v else 'through-InspectWrapper' if 'wrapper' in v
+                                               else 'presentation'))
+
+            def vs(sz, v=v):
+                if 'wrapper' in v:
+                    return vsize_via_wrapper(img.fmt, img.data, sz, v['allowed'], v['wrapper'])[0]
+                return vsize_of(img.fmt, img.data, sz, v.get('poll'), v.get('feed', 'bytes'), v.get('ctor'))
+            got = vs(sizes)
             if got == want:
                 continue
-            if poll is not None:
-                poll = 'all' if vsize_of(img.fmt, img.data, sizes, 'all') != want else poll
-            if poll in (None, 'all'):
-                small = G.shrink_cuts(n, sizes, lambda s: vsize_of(img.fmt, img.data, s, poll) != want)
-            else:
-                small = sizes
-            got = vsize_of(img.fmt, img.data, small, poll)
+            if isinstance(v.get('poll'), list):
+                if vsize_of(img.fmt, img.data, sizes, 'all') != want:
+                    v = dict(poll='all')
+            small = sizes
+            if not isinstance(v.get('poll'), list):
+                t0 = time.time()
+                small = G.shrink_cuts(n, sizes, lambda s: time.time() - t0 < 20 and vs(s, v) != want)
+                if vs(small, v) == want:
+                    small = sizes
+            got = vs(small, v)
             parent = getattr(img, 'parent', img)
             case = {'kind': 'insp', 'fmt': img.fmt, 'content': img.field, 'length': n, 'wellformed': True,
                     'sizes': G.pack_sizes(small), 'expected': want, 'params': parent.params,
                     'prefix_of': len(parent.data), 'size_structure_ends_at': parent.size_at, 'tag': img.tag}
-            if poll is not None:
-                case['poll'] = poll
+            case.update(v)
+            how = ''
+            if 'poll' in v:
+                how = '; observers queried after %s' % ('every chunk' if v['poll'] == 'all' else 'chunks %s' % v['poll'][:10])
+            elif 'wrapper' in v:
+                how = '; stream presented through InspectWrapper(allowed_formats=%s) by %s' % (v['allowed'], 'read()' if v['wrapper'] == 'read' else 'iteration')
+            elif v:
+                how = '; chunks presented as %s to %s(%s)' % (v['feed'], img.fmt, ', '.join('%s=%s' % kv for kv in sorted(v['ctor'].items())))
             fails.append(Failure(case, {
-                'kind': what if poll is None else what + '-after-intermediate-queries',
+                'kind': what + ('' if not v else '-after-intermediate-queries' if 'poll' in v else '-through-InspectWrapper' if 'wrapper' in v
+                                else '-with-other-chunk-objects-or-constructor-arguments'),
                 'what': '%s: virtual_size is %s, the image declares %s (%s; %d of %d bytes presented, chunk sizes %s%s)'
-                        % (img.fmt, got, want, img.tag, n, len(parent.data), G.pack_sizes(small)[:8],
-                           '' if poll is None else '; observers queried after %s'
-                           % ('every chunk' if poll == 'all' else 'chunks %s' % poll[:10]))}))
+                        % (img.fmt, got, want, img.tag, n, len(parent.data), G.pack_sizes(small)[:8], how)}))
             return True
     return False
 
@@ -285,7 +345,8 @@ def check_illformed(ctx, img, fam, fails):
 def search(ctx, seeds, full=False):
     rng = ctx.rng
     fails = []
-    for s in [s for s in seeds if s.get('kind') == 'insp'][:40]:
+    ctx._c07_full = full
+    for s in [s for s in seeds if s.get('kind') in ('insp', 'wrap')][:40]:
         # a disagreeing case carries no declared size: look for chunk-dependence of virtual_size on its bytes
         data = G.decode_content(s['content'])
         img = G.Img(s['fmt'], data, [64, 512, G.H, 256 * G.K], 'seed: ' + s.get('tag', ''), declared=s.get('declared'),
@@ -293,7 +354,15 @@ def search(ctx, seeds, full=False):
         fam = [('seed', G.unpack_sizes(s['sizes']))] + family(img, rng, ctx.quick, False)
         if img.wellformed:
             # the correspondence interleaves queries on the Python side: always poll on the disagreeing cases
-            check_wellformed(ctx, img, img.declared, fam, fails, 'virtual-size-is-not-the-declared-size', poll_p=1.0)
+            forced, nf0 = None, len(fails)
+            if s['kind'] == 'wrap':
+                forced = dict(wrapper='read', allowed=s.get('allowed'))
+            elif s.get('feed') or s.get('ctor'):
+                forced = dict(feed=s.get('feed', 'bytes'), ctor=s.get('ctor') or {})
+            check_wellformed(ctx, img, img.declared, fam[:1] if forced else fam, fails, 'virtual-size-is-not-the-declared-size',
+                             poll_p=1.0, forced=forced)
+            if len(fails) == nf0:
+                check_wellformed(ctx, img, img.declared, fam, fails, 'virtual-size-is-not-the-declared-size', poll_p=1.0)
         else:
             check_illformed(ctx, img, fam, fails)
         if len(fails) >= 5:
@@ -307,6 +376,8 @@ def search(ctx, seeds, full=False):
             fam = family(img, rng, ctx.quick, False)
             bad = check_wellformed(ctx, img, img.declared, fam, fails, 'virtual-size-is-not-the-declared-size')
             if bad:
+                if len(fails) >= 5:
+                    return fails
                 continue
             do_all = img.fmt not in first
             first.add(img.fmt)
@@ -385,18 +456,37 @@ def replay(ctx, payload):
     names = ['sizes_a', 'sizes_b'] if 'sizes_a' in case else ['sizes']
     got = []
     poll = case.get('poll')
+    if isinstance(poll, list):
+        poll = set(poll)
+    feed, ctor = case.get('feed', 'bytes'), case.get('ctor') or {}
     for name in names:
         sizes = G.unpack_sizes(case[name])
-        impl = insp_impl.run_insp(fmt, data, sizes)[0]
-        if poll is not None:
-            print('with the observers queried after %s:' % ('every chunk' if poll == 'all' else 'chunks %s' % poll))
-            print('  implementation virtual_size:', vsize_of(fmt, data, sizes, 'all' if poll == 'all' else set(poll)))
-        model = ctx.driver.ask(G.insp_line(fmt, case['content'], sizes, False))
         print('%s, %d bytes, chunk sizes %s' % (fmt, len(data), case[name][:12]))
-        print('  implementation:', impl[-1200:])
-        print('  model         :', model[-1200:])
-        got.append(G.vfield(impl.split('\t')[-1], 'vsize') if poll is None
-                   else vsize_of(fmt, data, sizes, 'all' if poll == 'all' else set(poll)))
+        if case.get('kind') == 'wrap' and 'wrapper' not in case:
+            case = dict(case, wrapper='read')
+        if 'wrapper' in case:
+            al = case.get('allowed')
+            impl = insp_impl.run_wrap(al, None, data, sizes)[0]
+            model = ctx.driver.ask(G.wrap_line(case['content'], sizes, al))
+            v, f = vsize_via_wrapper(fmt, data, sizes, al, case['wrapper'])
+            print('  through InspectWrapper(allowed_formats=%s) by %s: format %s, virtual_size of its %s inspector: %s'
+                  % (al, 'read()' if case['wrapper'] == 'read' else 'iteration', f, fmt, v))
+            print('  implementation:', impl.split('\t', 2)[-1][-1500:])
+            print('  model         :', model.split('\t', 2)[-1][-1500:])
+            got.append(v)
+        else:
+            impl = G.run_insp_x(fmt, data, sizes, feed=feed, ctor=ctor)
+            model = ctx.driver.ask(G.insp_line(fmt, case['content'], sizes, False))
+            if feed != 'bytes' or ctor:
+                print('  chunks presented as %s (buffer reused and overwritten after each call) to %s(%s)' % (feed, fmt, ctor or ''))
+            print('  implementation:', impl[-1200:])
+            print('  model         :', model[-1200:])
+            v = G.vfield(impl.split('\t')[-1], 'vsize')
+            if poll is not None:
+                v = vsize_of(fmt, data, sizes, poll, feed, ctor)
+                print('  with the observers queried after %s: implementation virtual_size %s'
+                      % ('every chunk' if poll == 'all' else 'chunks %s' % sorted(poll), v))
+            got.append(v)
         if impl != model:
             rc = 1
     if 'expected' in case:
